@@ -15,9 +15,11 @@ pub fn gen15(tier: &str, rng: &mut Rng) -> Vec<Spec> {
             v.push(Spec::new(kind).with("ty", ty).with("xs", join_rats(&xs))); } }
         for _ in 0..(if t { 1500 } else { 200 }) { let l = rng.range(1, if t { 120 } else { 40 }) as usize; v.push(Spec::new(kind).with("xs", join_rats(&rand_hist(rng, l, 7)))); }
     }
+    v.extend(crate::fx::gen(&[0, 1, 2, 3], if t { 400 } else { 60 }, rng));
     v
 }
 pub fn exec15(s: &Spec, stats: &mut Stats) -> Outcome {
+    if s.kind == "fx" { return crate::fx::exec::<crate::fx_smooth::R>(s, stats); }
     let xs = s.rats("xs"); stats.bump(format!("len:{}", xs.len() / 10 * 10));
     let ty = if s.has("ty") { s.get("ty") } else { "rat" }; stats.bump(format!("ty:{}", ty));
     let (k, (ys, p)) = match (s.kind.as_str(), ty) {
